@@ -36,7 +36,7 @@ ASSUMPTIONS = [
     'subsample-by-id at full depth is used only on tables without all-zero '
     'vectors (it drops them by design)',
 ]
-REQUIRED = ['pairs_compared', 'accessor_interleavings',
+REQUIRED = ['pairs_compared', 'cell_queries_on_fresh_layout', 'derived_vs_rebuilt', 'accessor_interleavings',
             'single_difference_pairs', 'tiny_value_difference_pairs',
             'exports_compared_tsv', 'exports_compared_json',
             'exports_compared_hdf5', 'route_stored_zeros_input',
@@ -203,6 +203,69 @@ def hdf5_view(ctx, t, path):
             d['nnz'])
 
 
+def derived_vs_rebuilt(ctx, r, spec, base, desc):
+    """Whatever history produced a table, it must equal (both ways, before
+    and after read accessors) the table constructed from its observable
+    content."""
+    Table = ctx.biom.Table
+    D = spec.D
+    cand = ['transform-zero', 'pa', 'filter', 'sort', 'merge-cancel']
+    if D.size and np.all(D >= 0) and np.all(D == np.floor(D)) and \
+            D.max() < 1e6 and D.sum() > 0:
+        cand += ['subsample', 'subsample', 'subsample-replace']
+    how = r.choice(cand)
+    t = base.copy()
+    try:
+        if how == 'subsample':
+            tot = sorted(set(D.sum(axis=0).tolist()))
+            n = max(1, int(r.choice(tot) // 2))
+            t = t.subsample(n, seed=r.randrange(99))
+        elif how == 'subsample-replace':
+            t = t.subsample(max(1, int(D.sum() // (2 * D.shape[1]) or 1)),
+                            with_replacement=True, seed=r.randrange(99))
+        elif how == 'transform-zero':
+            t.transform(lambda v, i, m: np.where(v > np.median(v), v, 0.),
+                        axis=r.choice(['sample', 'observation']))
+        elif how == 'pa':
+            t.pa()
+        elif how == 'filter':
+            ids = list(t.ids())
+            t.filter(r.sample(ids, max(1, len(ids) - 1)))
+        elif how == 'sort':
+            ids = list(t.ids(axis='observation'))
+            r.shuffle(ids)
+            t = t.sort_order(ids, axis='observation')
+        elif how == 'merge-cancel':
+            neg = base.copy()
+            neg.transform(lambda v, i, m: -v)
+            ty = t.type
+            t = t.merge(neg)
+            t.type = ty
+    except Exception as e:
+        ctx.skip('derived route %s raised %s' % (how, type(e).__name__))
+        return
+    if t.is_empty():
+        return
+    s0 = snap.snap(t)
+    reb = Table(s0.D.copy(), list(s0.obs_ids), list(s0.samp_ids),
+                None if not any(s0.obs_md) else copy.deepcopy(s0.obs_md),
+                None if not any(s0.samp_md) else copy.deepcopy(s0.samp_md),
+                type=s0.type)
+    ddesc = dict(desc, derived=how)
+    for a, b in ((t, reb), (reb, t)):
+        v1 = equal_verdicts(a, b)
+        acc = accessor(r, a, b)
+        v2 = equal_verdicts(a, b)
+        if v1 != (True, True, True) or v2 != (True, True, True):
+            raise Violation('C16/derived-unequal-to-own-content/' + how,
+                            'a table produced by %s is not equal to the '
+                            'table rebuilt from its content: before %r, '
+                            'after accessor %s %r; layout %s; case=%r' %
+                            (how, v1, acc, v2, gen.layout_state(t), ddesc))
+    ctx.count('derived_vs_rebuilt')
+    ctx.cls('derived_route', how)
+
+
 def run_case(ctx, index):
     r = ctx.rng(index)
     hdf5_ok = index % 3 == 0
@@ -212,7 +275,22 @@ def run_case(ctx, index):
     chosen = r.sample(rts, k)
     fam = []
     for name, f in chosen:
-        fam.append((name, f()))
+        t_new = f()
+        # per-cell queries first, in the layout the route left behind (later
+        # reads convert it)
+        if index % 2 == 0:
+            for a, o in enumerate(spec.obs_ids):
+                for b, s_ in enumerate(spec.samp_ids):
+                    if not snap.bits_equal([t_new.get_value_by_ids(o, s_)],
+                                           [spec.D[a, b]]):
+                        raise Violation(
+                            'C16/cell-query-differs/' + name, '(%r,%r) '
+                            'answers %r, content is %r; layout %s; table=%r'
+                            % (o, s_, float(t_new.get_value_by_ids(o, s_)),
+                               float(spec.D[a, b]),
+                               gen.layout_state(t_new), spec.describe()))
+            ctx.count('cell_queries_on_fresh_layout')
+        fam.append((name, t_new))
         ctx.cls('route', name)
         if name.startswith('stored-zeros'):
             ctx.count('route_stored_zeros_input')
@@ -289,6 +367,8 @@ def run_case(ctx, index):
                     raise Violation('C16/cell-query-differs/' + name,
                                     '(%r,%r); case=%r' % (o, s, desc))
     ctx.case(desc, len(fam) >= 2)
+    # ---------------------- a derived table equals its own content rebuilt
+    derived_vs_rebuilt(ctx, r, spec, fam[0][1], desc)
     # ------------------------------------------ single-difference pairs
     base = fam[0][1]
     n, m = spec.D.shape
